@@ -146,6 +146,15 @@ def run(ctx):
                                        "numpy/awkward == object elementwise": {"ok": not any(f["site"].startswith(("numpy", "awkward")) for f in ctx.failures)}}
 
 
+_run_without_compiled = run
+
+
+def run(ctx):
+    _run_without_compiled(ctx)
+    from tools import nbrows
+    nbrows.check(ctx, ['add', '+', 'subtract', '-', 'dot', '@', 'cross', 'scale', 'mul', 'rmul', 'div', 'neg', 'pos', 'unit', 'abs', 'pow2', 'pow3', 'scale2D', 'scale3D', 'scale4D', 'np_add', 'np_subtract', 'np_matmul', 'np_absolute', 'np_square', 'np_sqrt', 'np_cbrt', 'np_negative', 'np_positive', 'np_multiply', 'np_true_divide', 'np_power3'], 'the arithmetic')
+
+
 def replay(rec):
     import vector
     f = rec.get("failure") or {}
